@@ -1,5 +1,5 @@
 (* Ops.v — composite operations exposed to the correspondence check (end to end from bytes). *)
-From GQL.model Require Import Base Utf8 Lexer Ast Parser Prog ParseQuery ParseSchema Json Format Schema Walk Rules Rules2 Validate Link.
+From GQL.model Require Import Base Utf8 Lexer Ast Parser Prog ParseQuery ParseSchema Json Format Schema Walk Rules Rules2 Validate Link Vars.
 From GQL.gen Require Import Prelude.
 
 Definition dump_json_roundtrip (d : dev) (input : str) : str :=
@@ -96,5 +96,94 @@ Definition dump_link_with (d : dev) (pre : pres sdoc) (query : str) (srcs : list
     match parseQuery d 0 query with
     | PErr e => b "query-" ++ dump_perr e
     | POk doc => (if nil_ (validate s doc) then b "valid " else b "invalid ") ++ link_doc s doc
+    end
+  end.
+
+(* ---------------- variable coercion (C14) ---------------- *)
+(* the float64 text of the json.Number literals the generator uses *)
+Definition jsonnum_table (x : str) : option str :=
+  if str_eqb x (b "1") then Some (b "1") else if str_eqb x (b "-7") then Some (b "-7")
+  else if str_eqb x (b "2.5") then Some (b "2.5") else if str_eqb x (b "1e3") then Some (b "1000")
+  else if str_eqb x (b "0") then Some (b "0") else if str_eqb x (b "9007199254740993") then Some (b "9007199254740992")
+  else None.
+
+Definition dump_vres (r : vres (list (str * gval))) : str :=
+  match r with
+  | VOk m => b "ok " ++ dump_gval (GMap m)
+  | VErr => b "err"
+  | VPanic => b "panic"
+  end.
+
+Definition dump_vars_with (d : dev) (pre : pres sdoc) (query vars : str) (srcs : list str) : str :=
+  match load_schema_with d pre srcs with
+  | None => b "schema-err"
+  | Some s =>
+    match parseQuery d 0 query with
+    | PErr e => b "query-" ++ dump_perr e
+    | POk doc =>
+      if negb (nil_ (validate s doc)) then b "invalid-doc" else
+      match doc.(q_ops), parse_gval (S (length vars)) vars with
+      | o :: _, Some (GMap m, _) => dump_vres (variableValues d s jsonnum_table o.(o_vars) m [])
+      | _, _ => b "bad-request"
+      end
+    end
+  end.
+
+(* ---------------- argument maps of every field and directive (C15) ---------------- *)
+Section AM.
+  Variable d : dev.
+  Variable s : schema.
+  Variable doc : qdoc.
+  Variable vds : list vardef.
+  Variable vars : list (str * gval).
+
+  Definition am_res (r : vres (list (str * gval))) : str :=
+    match r with VOk m => dump_gval (GMap m) | VErr => b "err" | VPanic => b "panic" end.
+
+  Definition am_dirs (ds : list directive) : str :=
+    concat (map (fun x => match sdir s x.(d_name) with
+                          | Some dd => b "D" ++ hex x.(d_name) ++ 61%N :: am_res (arg2map d vds vars dd.(dd_args) x.(d_args)) ++ [59%N]
+                          | None => []
+                          end) ds).
+
+  Fixpoint am_sel (parent : option definition) (sel : selection) : str :=
+    match sel with
+    | SField al n args dirs sels p =>
+      let fd := field_def_of parent n in
+      let next := match fd with Some x => stype s (type_name x.(fd_type)) | None => None end in
+      (match fd with
+       | Some x => b "F" ++ hex n ++ 61%N :: am_res (arg2map d vds vars x.(fd_args) args) ++ [59%N]
+       | None => []
+       end) ++ am_dirs dirs ++ concat (map (am_sel next) sels)
+    | SInline tc dirs sels p =>
+      let next := match tc with [] => parent | _ => stype s tc end in
+      am_dirs dirs ++ concat (map (am_sel next) sels)
+    | SSpread n dirs p => am_dirs dirs
+    end.
+
+  Definition am_doc : str :=
+    concat (map (fun o => am_dirs o.(o_dirs) ++ concat (map (fun v => am_dirs v.(vd_dirs)) o.(o_vars))
+                          ++ concat (map (am_sel (root_def s o.(o_op))) o.(o_sels))) doc.(q_ops))
+    ++ concat (map (fun f => am_dirs f.(f_dirs) ++ concat (map (am_sel (stype s f.(f_typecond))) f.(f_sels))) doc.(q_frags)).
+End AM.
+
+(* mode "raw": the map as supplied; "coerced": the map VariableValues returned *)
+Definition dump_argmap_with (d : dev) (pre : pres sdoc) (mode query vars : str) (srcs : list str) : str :=
+  match load_schema_with d pre srcs with
+  | None => b "schema-err"
+  | Some s =>
+    match parseQuery d 0 query with
+    | PErr e => b "query-" ++ dump_perr e
+    | POk doc =>
+      if negb (nil_ (validate s doc)) then b "invalid-doc" else
+      match doc.(q_ops), parse_gval (S (length vars)) vars with
+      | o :: _, Some (GMap m, _) =>
+        match variableValues d s jsonnum_table o.(o_vars) m [] with
+        | VOk cm => b "ok " ++ am_doc d s doc o.(o_vars) (if str_eqb mode (b "raw") then m else cm)
+        | VErr => b "coercion-err"
+        | VPanic => b "coercion-panic"
+        end
+      | _, _ => b "bad-request"
+      end
     end
   end.
